@@ -111,30 +111,31 @@ func buildReqStruct(d ReqData) Req {
 	return r
 }
 
-func buildNReqStruct(d ReqData) NReq {
-	n := d.Nest
-	r := NReq{Text: d.Text, Num: d.Num, Inner: buildSub(d.Inner)}
-	r.Mid = Mid{Title: n.Title, Rank: n.Rank, Leaf: Leaf{Notes: cloneMap(n.Notes), Pin: n.Pin}}
+func buildMid(n NestData) Mid {
+	m := Mid{Title: n.Title, Rank: n.Rank, Leaf: Leaf{Notes: cloneMap(n.Notes), Pin: n.Pin}}
 	if n.Items != nil {
-		r.Mid.Leaf.Items = append([]string{}, n.Items...)
+		m.Leaf.Items = append([]string{}, n.Items...)
 	}
 	if n.Ptr != nil {
 		s := buildSub(*n.Ptr)
-		r.Mid.Leaf.Ptr = &s
+		m.Leaf.Ptr = &s
 	}
 	if n.Subs != nil {
-		r.Mid.Leaf.Subs = make([]Sub, 0, len(n.Subs))
+		m.Leaf.Subs = make([]Sub, 0, len(n.Subs))
 		for _, s := range n.Subs {
-			r.Mid.Leaf.Subs = append(r.Mid.Leaf.Subs, buildSub(s))
+			m.Leaf.Subs = append(m.Leaf.Subs, buildSub(s))
 		}
 	}
-	for i := range n.Pair {
-		r.Pair[i] = buildSub(n.Pair[i])
-	}
-	return r
+	return m
 }
 
-// buildReq returns the request value: Req, *Req, NReq, *NReq or nil.
+func buildN1(d ReqData) N1Req { return N1Req{Text: d.Text, Num: d.Num, Inner: buildSub(d.Inner)} }
+func buildN2(d ReqData) N2Req { return N2Req{Text: d.Text, Num: d.Num, Mid: buildMid(d.Nest)} }
+func buildN3(d ReqData) N3Req {
+	return N3Req{Text: d.Text, Num: d.Num, Pair: [2]Sub{buildSub(d.Nest.Pair[0]), buildSub(d.Nest.Pair[1])}}
+}
+
+// buildReq returns the request value of the kind (see the req* constants), nil for reqNil.
 func buildReq(d ReqData) any {
 	switch d.Kind {
 	case reqValue:
@@ -142,16 +143,26 @@ func buildReq(d ReqData) any {
 	case reqPointer:
 		r := buildReqStruct(d)
 		return &r
-	case reqNestValue:
-		return buildNReqStruct(d)
-	case reqNestPointer:
-		r := buildNReqStruct(d)
+	case reqN1Value:
+		return buildN1(d)
+	case reqN1Ptr:
+		r := buildN1(d)
+		return &r
+	case reqN2Value:
+		return buildN2(d)
+	case reqN2Ptr:
+		r := buildN2(d)
+		return &r
+	case reqN3Value:
+		return buildN3(d)
+	case reqN3Ptr:
+		r := buildN3(d)
 		return &r
 	}
 	return nil
 }
 
-// buildResp returns the response value: Resp, *Resp, NResp, *NResp or nil.
+// buildResp returns the response value of the kind, nil for reqNil.
 func buildResp(d ReqData) any {
 	switch d.Kind {
 	case reqValue:
@@ -159,10 +170,20 @@ func buildResp(d ReqData) any {
 	case reqPointer:
 		r := Resp(buildReqStruct(d))
 		return &r
-	case reqNestValue:
-		return NResp(buildNReqStruct(d))
-	case reqNestPointer:
-		r := NResp(buildNReqStruct(d))
+	case reqN1Value:
+		return N1Resp(buildN1(d))
+	case reqN1Ptr:
+		r := N1Resp(buildN1(d))
+		return &r
+	case reqN2Value:
+		return N2Resp(buildN2(d))
+	case reqN2Ptr:
+		r := N2Resp(buildN2(d))
+		return &r
+	case reqN3Value:
+		return N3Resp(buildN3(d))
+	case reqN3Ptr:
+		r := N3Resp(buildN3(d))
 		return &r
 	}
 	return nil
